@@ -9,12 +9,17 @@ package main
 // C10  pkg dec of mutated encodings and of arbitrary bytes after every token: never `panic`.
 
 import (
+	"context"
+	"errors"
 	"fmt"
 	"math/rand"
+	"os"
 	"strconv"
 	"strings"
 	"sync"
 	"time"
+
+	"github.com/SAP/go-dblib/tds"
 )
 
 var normOnce sync.Once
@@ -478,6 +483,7 @@ func c10Gen(tier string, rng *rand.Rand, emit func(Case)) {
 	})
 	// packet level: all header values incl. length < 8 (c14.go)
 	rdrawGen(tier, rng, emit)
+	rdconnGen(tier, rng, emit)
 	// value level: every data type with every data length 0..255 (c10values.go)
 	c10ValueGen(tier, rng, emit)
 }
@@ -485,6 +491,13 @@ func c10Gen(tier string, rng *rand.Rand, emit func(Case)) {
 func c10Impl(line string) string {
 	if strings.HasPrefix(line, "rdraw ") {
 		return rdrawImpl(line)
+	}
+	if strings.HasPrefix(line, "rdconn ") {
+		// the connection's reader goroutine cannot be put under recover: every case runs in a process of its own
+		if os.Getenv("VERIF_CHILD") == "" {
+			return isolatedImpl(registry["C10"], line)
+		}
+		return rdconnImpl(line)
 	}
 	if strings.HasPrefix(line, "val ") {
 		return valuesImpl(line)
@@ -523,6 +536,12 @@ func c10Oracle(line, out string) string {
 			if ps < 9 || ps > 65535 {
 				return "no server input makes the client crash or hang on its next send (an unusable packet size is never put in force)"
 			}
+		}
+		return ""
+	}
+	if strings.HasPrefix(line, "rdconn ") {
+		if !strings.HasPrefix(out, "ok") {
+			return "no bytes on the wire crash or hang the connection's reader (every header value, known and unknown channels)"
 		}
 		return ""
 	}
@@ -596,7 +615,7 @@ func init() {
 		},
 		Nontrivial: pkgNontrivial, NoShrink: true, Timeout: 30 * time.Second,
 		Rule:        "valid encodings of every package kind with every byte (sampled on long ones) replaced by 00/01/7f/80/fe/ff, random multi-byte mutations with truncation and trailing garbage, hostile 2- and 4-byte little-endian values (0x7fffffff, 0x80000000, 0xffffffff, 0x7fff, 0x8000, 0xffff) at every offset of the first 28 bytes of encodings sampled evenly over every kind's generator (every data type of the format and data packages), and arbitrary bytes after each of the 256 token values; real ReadFrom under recover vs the Lean decoder (outcome class and fields must agree); packet level: the reader loop (Packet.ReadFrom per iteration) on streams of 1..3 packets with every announced length 0..16, every header type/status value, random header fields, truncations and read schedules vs the Lean reader model. value level: GoValue on every data type byte 0..255 with every data length 0..255 (zero, 0xff and random data) vs the Lean value model; allocation probe: every 60th (thorough: 12th) hostile-length case again in a process of its own that measures what it allocates. Non-trivial = well-formed case",
-		NoModel:     func(line string) bool { return strings.HasPrefix(line, "mem ") },
+		NoModel:     func(line string) bool { return strings.HasPrefix(line, "mem ") || strings.HasPrefix(line, "rdconn ") },
 		Assumptions: []string{"allocation: PacketQueue.Bytes checks availability before allocating (fix 31957a3); measured for a sample of the hostile-length cases in a process of its own (TotalAlloc while decoding <= 4 MiB + 300 x case length, address space limited to 3 GiB)"},
 	})
 }
@@ -654,4 +673,73 @@ func grammarGen(tier string, rng *rand.Rand, emit func(Case)) {
 		}
 	}
 	rec(nil)
+}
+
+// rdconn <hex> (oracle only): the bytes arrive on a connection with channels 0 and 1 and the real reader
+// goroutine (Conn.ReadFrom: read a packet, look its channel up, hand it over); then the peer resets the
+// connection. Answer: `ok pk=<packages delivered>`; a crash of the reader takes the (child) process down.
+func rdconnImpl(line string) string {
+	f := strings.Fields(line)
+	if len(f) != 2 {
+		return "bad-op"
+	}
+	stream := unhx(f[1])
+	if stream == nil {
+		return "bad-op"
+	}
+	mc := newMemConn()
+	info := testInfo()
+	conn, _ := tds.VerifNewConn(context.Background(), mc, info, true)
+	chans := []*tds.Channel{conn.VerifNewChannel(0), conn.VerifNewChannel(1)}
+	mc.feed(stream)
+	for i := 0; i < 6000 && !mc.idleReader(); i++ {
+		time.Sleep(50 * time.Microsecond)
+	}
+	n := 0
+	for _, ch := range chans {
+		for {
+			p, _ := ch.VerifQueued()
+			if p == 0 {
+				break
+			}
+			if _, err := ch.NextPackage(context.Background(), false); err != nil {
+				break
+			}
+			n++
+		}
+	}
+	mc.fail(errors.New("connection reset by peer"))
+	time.Sleep(time.Millisecond)
+	conn.VerifCancel()
+	return fmt.Sprintf("ok pk=%d", n)
+}
+
+func rdconnGen(tier string, rng *rand.Rand, emit func(Case)) {
+	mk := func(typ, st, ch int, body []byte) []byte {
+		l := len(body) + 8
+		return append([]byte{byte(typ), byte(st), byte(l >> 8), byte(l), byte(ch >> 8), byte(ch), 0, 0}, body...)
+	}
+	done := wDone(0xFD, 0, 0, 1)
+	// every message type, on a channel that exists and on one that does not (a late answer for a channel that
+	// was closed), header-only and with a body, alone and followed by an ordinary packet
+	for typ := 0; typ < 256; typ++ {
+		for _, ch := range []int{0, 1, 7, 258} {
+			if tier != "thorough" && ch == 1 && typ%8 != 1 {
+				continue
+			}
+			emit(Case{Line: "rdconn " + hx(mk(typ, 1, ch, nil)), Kind: "reader-header-only"})
+			emit(Case{Line: "rdconn " + hx(append(mk(typ, typ%2, ch, done), mk(4, 1, 0, done)...)), Kind: "reader-with-body"})
+		}
+	}
+	n := 150
+	if tier == "thorough" {
+		n = 2000
+	}
+	for i := 0; i < n; i++ {
+		var s []byte
+		for k := 0; k < 1+rng.Intn(4); k++ {
+			s = append(s, mk(rng.Intn(256), rng.Intn(256), []int{0, 1, 2, 257, 65535}[rng.Intn(5)], rndBytes(rng, rng.Intn(30)))...)
+		}
+		emit(Case{Line: "rdconn " + hx(s), Kind: "reader-random"})
+	}
 }
